@@ -249,6 +249,25 @@ class ContextReuse(Suite):
                         f'{b[t]["params"]} and {b[t]["value"]}')
         if repr(obs['before']) != repr(obs['after']):
             return f'the caller\'s context objects changed: {obs["before"]} -> {obs["after"]}'
+        # values that came from a context are substituted like the config's own: no placeholder that the build's
+        # global_vars define is left in what a task receives
+        def left(v, names):
+            if isinstance(v, dict) and '__reprstr__' in v:
+                return left(v['__reprstr__'][0], names)
+            if isinstance(v, str):
+                return [n for n in names if '{' + n + '}' in v]
+            if isinstance(v, dict):
+                return [x for y in v.values() for x in left(y, names)]
+            if isinstance(v, list):
+                return [x for y in v for x in left(y, names)]
+            return []
+        for i, (b, tasks) in enumerate(zip(case['builds'], obs['seq'])):
+            names = list(b.get('gv') or {})
+            for t, o in tasks.items():
+                bad = left(o.get('params'), names)
+                if bad:
+                    return (f'build {i} ({b}): task {t} receives {o.get("params")}: the placeholder(s) {sorted(set(bad))} defined by '
+                            f'global_vars were not substituted in a value that came from a context')
         return None
 
     def nontrivial(self, case, obs):
@@ -317,9 +336,95 @@ class DataReuse(Suite):
         return repr(case)
 
 
+TYPES_SRC = """
+import collections.abc, numbers
+from pathlib import Path
+from taskchain import Task, Parameter
+
+class Train:
+    class Options:                  # two different classes that share name and module
+        def __init__(self, v=0):
+            self.v = v
+
+class Evaluate:
+    class Options:
+        def __init__(self, v=0):
+            self.v = v
+
+DTYPES = {'Sequence': collections.abc.Sequence, 'Mapping': collections.abc.Mapping, 'Real': numbers.Real, 'Integral': numbers.Integral,
+          'Iterable': collections.abc.Iterable, 'list': list, 'dict': dict, 'int': int, 'float': float, 'str': str, 'TrainOptions': Train.Options,
+          'object': object}
+
+def make(dtype):
+    class Abc(Task):
+        class Meta:
+            name = 'abc'
+            parameters = [Parameter('p', dtype=DTYPES[dtype])]
+        def run(self, p) -> dict:
+            return {'type': type(p).__name__}
+    return Abc
+"""
+
+
+class DeclaredTypes(Suite):
+    """a parameter declared with a type - an abstract base class (Sequence, Mapping, Real ...), a built-in, a class of the
+    user's - and a configured value: the value is accepted exactly when it is an instance of that type (isinstance), a
+    wrong-typed value is refused when the chain is built - also an object of another class that has the same name and
+    module.  Runtime check only (the model knows the built-in types)."""
+    name = 'declared_parameter_types'
+    model = ''
+    VALUES = {'list': [1, 2], 'dict': {'a': 1}, 'int': 3, 'float': 2.5, 'str': 'text', 'bool': True, 'train_options': '@Train.Options',
+              'evaluate_options': '@Evaluate.Options'}
+
+    def gen(self, rng, tier):
+        return [dict(dtype=d, value=v) for d in ('Sequence', 'Mapping', 'Real', 'Integral', 'Iterable', 'list', 'dict', 'int', 'float', 'str',
+                                                   'TrainOptions', 'object') for v in self.VALUES]
+
+    def run_impl(self, case):
+        import sys, types
+        from pathlib import Path
+        from taskchain import Config
+        from .. import pipeline as pl
+        with pl.workspace(dict(classes=[], files={})) as (d, _):
+            name = 'tcv_types'
+            m = types.ModuleType(name)
+            sys.modules[name] = m
+            try:
+                exec(compile(TYPES_SRC, name, 'exec'), m.__dict__)
+                value = self.VALUES[case['value']]
+                if isinstance(value, str) and value.startswith('@'):
+                    value = eval('m.' + value[1:])(1)
+                expected = isinstance(value, m.DTYPES[case['dtype']])
+                try:
+                    t = Config(Path('data'), name='c', data={'tasks': [m.make(case['dtype'])], 'p': value}).chain()['abc']
+                    got = dict(accepted=True, same=t.params['p'] is value or t.params['p'] == value)
+                except ValueError as e:
+                    got = dict(accepted=False, text=str(e)[:100])
+                return dict(expected=expected, **got)
+            finally:
+                sys.modules.pop(name, None)
+
+    def oracle(self, case, obs):
+        if 'unexpected_exception' in obs:
+            return f'unexpected exception {obs["unexpected_exception"]}: {obs["text"]}'
+        if obs['accepted'] != obs['expected']:
+            return (f'a parameter declared with dtype {case["dtype"]} and the value {case["value"]}: '
+                    f'{"accepted" if obs["accepted"] else "refused (" + obs.get("text", "") + ")"}, although the value is '
+                    f'{"an" if obs["expected"] else "no"} instance of that type')
+        if obs['accepted'] and not obs['same']:
+            return f'{case}: the task holds another value than the configured one'
+        return None
+
+    def nontrivial(self, case, obs):
+        return True
+
+    def key(self, case):
+        return repr(case)
+
+
 class C09(Prop):
     pid = 'C09'
-    suites = [Params(), Aliasing(), ContextReuse(), DataReuse()]
+    suites = [Params(), Aliasing(), ContextReuse(), DataReuse(), DeclaredTypes()]
     trusted_base = ['"share no mutable values" is a heap property with no meaning in the functional model: it is '
                     'checked by the harness only (object identities, mutation after construction)']
     assumptions = ['contexts are well formed mappings (unique keys, unique namespaces); multi-config parts and nested '
